@@ -101,6 +101,8 @@ BasisSol *obasis_solve (const SF * S, const char *cstat, const char *rstat);
 void obasis_free (BasisSol * B, const SF * S);
 
 /* helpers */
+char *q_str (const mpq_t q);   /* malloc'ed decimal string (GMP's own allocator may be the library's slab pool) */
+char *z_str (const mpz_t z);
 mpq_t *mpq_arr_new (int n);
 void mpq_arr_free (mpq_t * a, int n);
 /* dense exact Gaussian elimination: solves M x = r (k x k); returns 0 ok, 1 singular. M,r destroyed */
